@@ -46,7 +46,9 @@ fn load_core(truth: &mut Truth, fmt: Fmt, game: Game) {
 
 pub enum ImageSrc { AnmBytes(Vec<u8>), Dir(std::path::PathBuf) }
 
-pub struct Compiled { pub bytes: Vec<u8>, pub debug_info: serde_json::Value, pub file: FileStruct }
+pub struct Compiled { pub bytes: Vec<u8>, pub debug_info: serde_json::Value, pub file: FileStruct,
+    /// the two content sections of the debug-info document serialised directly (field / map order as the CLI writes them)
+    pub debug_info_text: String }
 
 /// The in-memory form of a file (what the compiler produced / what the reader returned).
 pub enum FileStruct { Anm(truth::AnmFile), Std(truth::StdFile), Msg(truth::MsgFile), Mission(truth::MissionMsgFile), Ecl(truth::EclFile) }
@@ -136,7 +138,8 @@ pub fn compile_file_ex(truth: &mut Truth, fmt: Fmt, game: Game, text: &[u8], use
         "exported-scripts": serde_json::to_value(&c.script_debug_info).unwrap(),
         "consts": serde_json::to_value(&c.consts.debug_info(&c.defs)).unwrap(),
     });
-    Ok(Compiled { bytes, debug_info, file })
+    let debug_info_text = format!("{}\n{}", serde_json::to_string(&c.script_debug_info).unwrap_or_default(), serde_json::to_string(&c.consts.debug_info(&c.defs)).unwrap_or_default());
+    Ok(Compiled { bytes, debug_info, file, debug_info_text })
 }
 
 #[derive(Debug, Clone, Copy, PartialEq, Eq)]
